@@ -142,6 +142,41 @@ def r4_qualifier_local(c, facts):
             c.bad(R, 'qualifier-walk-not-that-module', 'the variables visited by rename_qualifier do not come from the module of the import')
 
 
+def r11_qualifier_binders(c, facts, rule='C18.R11'):
+    """a qualifier is a *name* of the module: its uses are found by name (`var.qualifier() == definition`, by design), so
+    every import that binds the name has to be renamed with them - `use "a" as m; use "b" as m;` is one name with two
+    binders. Every edit rename_qualifier produces therefore stands under the name test."""
+    R = c.rule(rule, 'QUALIFIER-BINDERS: rename_qualifier produces every edit - of a use and of an import - under the same test on the qualifier name')
+    fn = facts.normalised(c.anchor(R, 'oal_client::lsp::handlers::rename_qualifier'))
+    edits = [b for b, t in P.call_blocks(fn, 'TextEdit::new')]
+    c.floor(R, 'edit sites of rename_qualifier', len(edits), 1)
+    yes = set()
+    for b, t in fn.calls():
+        info = callee_of(t)
+        if not info or not info['def'].endswith(('PartialEq::eq', 'PartialEq::ne')) or not any('parser::Identifier' in a.get('ty', '') for a in t['args']):
+            continue
+        if t.get('target') is None or 'l' not in t['dest']:
+            continue
+        # the switch on the result (possibly after a copy)
+        for sb in fn.reachable_from(t['target']):
+            sw = fn.mir['blocks'][sb]['term']
+            if sw['t'] == 'switch' and 'l' in sw['discr'] and (sw['discr']['l'] == t['dest']['l'] or t['dest']['l'] in MF.slice_back(fn, sw['discr']['l'], MF.defs_index(fn), through_calls=False)['locals']):
+                zero = [x for v, x in sw['targets'] if v == '0']
+                true_t = sw['otherwise'] if info['def'].endswith('::eq') else (zero[0] if zero else None)
+                if true_t is not None:
+                    yes.add(true_t)
+                break
+    if not yes:
+        c.bad(R, 'rename_qualifier:name-test-not-found', 'rename_qualifier no longer compares qualifier names')
+        return
+    free = [b for b in edits if b in fn.reachable_from(0, avoid=yes)]
+    inst = {'edit sites': len(edits), 'under the name test': len(edits) - len(free)}
+    if free:
+        c.bad(R, 'rename_qualifier:edit-outside-the-name-test', 'rename_qualifier produces an edit that does not stand under the test on the qualifier name (the import under the cursor is edited on its own): another import that binds the same name keeps it while its uses are renamed, and the edited sources are rejected (`use "a" as m; use "b" as m; .. m.x .. m.y`)', **inst)
+    else:
+        c.ok(R, inst)
+
+
 def r6_prepare_target(c, facts):
     """prepareRename offers the range of the identifier that rename will replace, selected through the same accessors"""
     R = c.rule('C18.R6', 'PREPARE-TARGET: the range offered by prepareRename is the identifier node that rename edits (declaration, qualifier or unqualified variable identifier), not the token under the cursor')
@@ -211,6 +246,7 @@ def run(c, facts):
     R10 = c.rule('C18.R10', 'FOLDERS: a rename is computed in every workspace folder whose program contains the document (shared with C17.R6)')
     c.shared(R10, c17.r6_folders, 'C17.R6', facts)
     c.run(r6_prepare_target, facts)
+    c.run(r11_qualifier_binders, facts)
     c.run(r4_qualifier_local, facts)
     c.run(lambda c: c08.r5_binder_kind(c, facts, rule='C18.R1', crates=('oal_client',)))
     c.run(r2_edit_prov, facts)
